@@ -62,7 +62,7 @@ def cache_lock(shared):
         return None
 
 
-def trim_build_cache(lock, limit_mb=25000):
+def trim_build_cache(lock, limit_mb=int(os.environ.get("VERIF_CACHE_LIMIT_MB", "25000"))):
     """Every run compiles a freshly generated corpus module (about 0.5 GB of build cache per check): empty the Go build cache when
     it has grown beyond limit_mb, so that repeated runs never fill the disk. The next run is then a cold build (1-2 min slower).
     Only done when no other check is running (exclusive lock, not waited for): emptying the cache under a running build breaks it."""
